@@ -138,6 +138,31 @@ pub open spec fn book_ok(z: Seq<ZoomInfo>, e: Seq<ZoomHeader>, idx: Seq<int>, d:
 pub open spec fn umax(a: int, b: int) -> int { if a >= b { a } else { b } }
 pub open spec fn umin(a: int, b: int) -> int { if a <= b { a } else { b } }
 
+/// the selection rule as a function of the first k levels: (indices kept, stopped by a cap).
+/// Automatic mode keeps a level iff its staged data is at most half the full data and it has strictly
+/// fewer sections than the level kept before it; manual mode keeps every level; both stop after 10
+/// kept levels (header room), automatic mode also after max_zooms.
+pub open spec fn sel(z: Seq<ZoomInfo>, k: int, half: int, maxz: int, auto: bool) -> (Seq<int>, bool)
+    decreases k
+{
+    if k <= 0 { (Seq::<int>::empty(), false) } else {
+        let p = sel(z, k - 1, half, maxz, auto);
+        if p.1 { p } else {
+            let last: int = if p.0.len() == 0 { u64::MAX as int } else { z[p.0.last()].sections.count() as int };
+            if auto && (z[k - 1].data.staged().len() > half || last <= z[k - 1].sections.count()) { (p.0, false) }
+            else { (p.0.push(k - 1), (auto && p.0.len() + 1 >= maxz) || p.0.len() + 1 >= 10) }
+        }
+    }
+}
+/// once stopped, later levels are not looked at
+pub proof fn lemma_sel_stopped(z: Seq<ZoomInfo>, k: int, n: int, half: int, maxz: int, auto: bool)
+    requires 0 <= k <= n, sel(z, k, half, maxz, auto).1,
+    ensures sel(z, n, half, maxz, auto) == sel(z, k, half, maxz, auto),
+    decreases n - k,
+{
+    if k < n { lemma_sel_stopped(z, k, n - 1, half, maxz, auto); }
+}
+
 // ---- lemmas ----
 pub proof fn lemma_prefix_trans(a: Seq<u8>, b: Seq<u8>, c: Seq<u8>)
     requires prefix(a, b), prefix(b, c),
@@ -257,6 +282,9 @@ pub proof fn lemma_lvl_of(z: Seq<ZoomInfo>, k: int)
         [[L: manual/first_ten_levels_kept_in_order]]
         r matches Ok(v) ==> (options.manual_zoom_sizes is Some ==> v@.len() == umin(zooms@.len() as int, 10)
             && forall|j: int| 0 <= j < v@.len() ==> (#[trigger] v@[j]).reduction_level == zooms@[j].resolution),
+        [[L: kept_levels_are_exactly_the_selection_rule]]
+        r matches Ok(v) ==> ({ let s = sel(zooms@, zooms@.len() as int, data_size as int / 2, options.max_zooms as int, options.manual_zoom_sizes is None).0;
+            v@.len() == s.len() && forall|j: int| 0 <= j < v@.len() ==> (#[trigger] v@[j]).reduction_level == zooms@[s[j]].resolution }),
         [[L: directory_fits_the_240_reserved_header_bytes]]
         r matches Ok(v) ==> v@.len() <= 10 && 24 * v@.len() <= 240,
 //@open
@@ -264,11 +292,14 @@ pub proof fn lemma_lvl_of(z: Seq<ZoomInfo>, k: int)
     let ghost n0 = d0.len() as int;
     let ghost z = zooms@;
     let ghost idx: Seq<int> = Seq::empty();
+    let ghost half = data_size as int / 2;
+    let ghost maxz = options.max_zooms as int;
 //@loop 1
         invariant_except_break
             [[L: loop/caps_not_yet_reached]]
             check_zoom ==> zoom_count < umax(options.max_zooms as int, 1),
             zoom_entries@.len() < MAX_ZOOM_LEVELS,
+            !sel(z, zi__ as int, half, maxz, check_zoom).1,
         invariant
             [[L: loop/frame]]
             z == zooms@, levels_ascending(z), d0 == old(file).data(), n0 == d0.len(), MAX_ZOOM_LEVELS == 10,
@@ -287,11 +318,17 @@ pub proof fn lemma_lvl_of(z: Seq<ZoomInfo>, k: int)
             check_zoom ==> forall|a: int, b: int| 0 <= a < b < idx.len() ==> z[#[trigger] idx[a]].sections.count() > z[#[trigger] idx[b]].sections.count(),
             check_zoom && idx.len() > 0 ==> last_zoom_section_count == z[idx.last()].sections.count(),
             idx.len() == 0 ==> last_zoom_section_count == u64::MAX,
+            [[L: loop/selection_rule]]
+            half == data_size as int / 2, maxz == options.max_zooms as int,
+            idx == sel(z, zi__ as int, half, maxz, check_zoom).0,
+            sel(z, zi__ as int, half, maxz, check_zoom).1 ==> sel(z, z.len() as int, half, maxz, check_zoom) == sel(z, zi__ as int, half, maxz, check_zoom),
             [[L: loop/manual_keeps_all]]
             !check_zoom ==> zoom_entries@.len() == zi__ && forall|j: int| 0 <= j < idx.len() ==> (#[trigger] idx[j]) == j,
         ensures
             [[L: loop/manual_exit]]
             !check_zoom ==> zoom_entries@.len() == umin(z.len() as int, 10),
+            [[L: loop/selection_exit]]
+            idx == sel(z, z.len() as int, half, maxz, check_zoom).0,
         decreases
             [[L: loop/termination]]
             z.len() - zi__,
@@ -318,12 +355,17 @@ pub proof fn lemma_lvl_of(z: Seq<ZoomInfo>, k: int)
             assert(entry_holds(d3, zoom_entries@.last(), z[k])); [[L: loop/pushed_entry_describes_this_level]]
             lemma_book_push(z, e_old, idx, d1, d3, n0, k, zoom_entries@.last());
             idx = idx.push(k);
+            assert(idx == sel(z, zi__ as int, half, maxz, check_zoom).0); [[L: loop/kept_by_the_rule]]
+            if sel(z, zi__ as int, half, maxz, check_zoom).1 { lemma_sel_stopped(z, zi__ as int, z.len() as int, half, maxz, check_zoom); }
         }
 //@at /Ok\(zoom_entries\)/ before
     proof {
         assert forall|j: int| 0 <= j < zoom_entries@.len() implies lvl_of(z, (#[trigger] zoom_entries@[j]).reduction_level) == idx[j] by {
             assert(entry_holds(file.data(), zoom_entries@[j], z[idx[j]]));
             lemma_lvl_of(z, idx[j]);
+        }
+        assert forall|j: int| 0 <= j < zoom_entries@.len() implies (#[trigger] zoom_entries@[j]).reduction_level == z[idx[j]].resolution by {
+            assert(entry_holds(file.data(), zoom_entries@[j], z[idx[j]]));
         }
     }
 //@end
